@@ -91,6 +91,12 @@ func genC08Handover(t *rapid.T, opts SetGenOpts) *Scenario {
 		}
 		t1.Phases = append(t1.Phases, p2)
 	}
+	regress := len(t0.Phases) >= 2 && rapid.IntRange(0, 2).Draw(t, "regress") == 0
+	if regress {
+		// T1 keeps only the objects of T0's later phases; T0 rolls out completely, then its first phase regresses, so the
+		// outgoing revision reports a shorter controllerOf than what it really controls
+		t1.Phases[0].Objs = nil
+	}
 	sc.Tmpls = []SetSpec{t0, t1}
 	sc.Steps = append(sc.Steps, Step{Op: "createDeploy", I: 0, J: rapid.SampledFrom([]int{0, 0, 1, 2, 11}).Draw(t, "limit")})
 	all := []string{engine.CtrlObjectDeployment, engine.CtrlObjectSet, engine.CtrlObjectSetPhase}
@@ -101,11 +107,19 @@ func genC08Handover(t *rapid.T, opts SetGenOpts) *Scenario {
 			sc.Steps = append(sc.Steps, GenReconcile(t, all))
 		}
 	}
-	if rapid.IntRange(0, 2).Draw(t, "ready0") == 0 {
-		for w := 0; w < 3; w++ {
+	if regress || rapid.IntRange(0, 2).Draw(t, "ready0") == 0 {
+		for w := 0; w < 4; w++ {
 			sc.Steps = append(sc.Steps, Step{Op: "widget", I: w, J: 1}, Step{Op: "tpReady", I: w, On: true})
 		}
 		sc.Steps = append(sc.Steps, Step{Op: "quiesce"})
+	}
+	if regress {
+		for _, o := range t0.Phases[0].Objs {
+			sc.Steps = append(sc.Steps, Step{Op: "tpReady", I: o.Pool, On: false}, Step{Op: "tpDelete", I: o.Pool})
+		}
+		for i := rapid.IntRange(1, 4).Draw(t, "afterregress"); i > 0; i-- {
+			sc.Steps = append(sc.Steps, GenReconcile(t, all))
+		}
 	}
 	sc.Steps = append(sc.Steps, Step{Op: "editDeploy", I: 1})
 	few := []string{engine.CtrlObjectDeployment, engine.CtrlObjectDeployment, engine.CtrlObjectDeployment, engine.CtrlObjectSet, engine.CtrlObjectSet, engine.CtrlObjectSetPhase}
